@@ -243,6 +243,16 @@ def shard_matrices(shard):
     part = new_part()
     q = Register(RegisterName.Q, 0)
     q1 = Register(RegisterName.Q, 1)
+    bad = np.full((1, 1), np.nan, dtype=complex)      # compares unequal to every gate
+
+    def M(fn, what, case):
+        """the published matrix, or a never-matching placeholder plus a violation when computing it raises"""
+        try:
+            return np.asarray(fn(), dtype=complex)
+        except Exception as exc:
+            add_violation(part, f"published-matrix-raises/{what}", f"{what}: computing the published matrix raised "
+                          f"{type(exc).__name__}: {exc}", case)
+            return bad
     if lo == 0:
         for mod, name in ((vanilla, "vanilla"), (nv, "nv")):
             for g in ("x", "y", "z", "h", "s", "k", "t"):
@@ -251,7 +261,7 @@ def shard_matrices(shard):
                     continue
                 part["evals"] += 1
                 part["distinct"] += 1
-                m = np.asarray(cls(reg=q).to_matrix(), dtype=complex)
+                m = M(lambda: cls(reg=q).to_matrix(), f"{name}/{g}", {"class": cls.__name__})
                 if not qsim.equal_up_to_phase(m, qsim.GATES1[g]):
                     add_violation(part, f"published-matrix/{name}/{g}", f"{name} {g}.to_matrix() is not the {g.upper()} gate", {"class": cls.__name__})
                 count(part, "published/static")
@@ -259,19 +269,19 @@ def shard_matrices(shard):
             cls = getattr(vanilla, f"{g}Instruction")
             part["evals"] += 1
             part["distinct"] += 1
-            if not qsim.equal_up_to_phase(np.asarray(cls(reg0=q, reg1=q1).to_matrix(), dtype=complex), mat):
+            if not qsim.equal_up_to_phase(M(lambda: cls(reg0=q, reg1=q1).to_matrix(), f"vanilla/{g.lower()}", {"class": cls.__name__}), mat):
                 add_violation(part, f"published-matrix/vanilla/{g.lower()}", f"{g}.to_matrix() is wrong", {"class": cls.__name__})
-            if not qsim.equal_up_to_phase(np.asarray(cls(reg0=q, reg1=q1).to_matrix_target_only(), dtype=complex), tgt):
+            if not qsim.equal_up_to_phase(M(lambda: cls(reg0=q, reg1=q1).to_matrix_target_only(), f"vanilla/{g.lower()}-target-only", {"class": cls.__name__}), tgt):
                 add_violation(part, f"published-matrix/vanilla/{g.lower()}-target-only", f"{g}.to_matrix_target_only() is wrong", {"class": cls.__name__})
         part["evals"] += 1
-        if not qsim.equal_up_to_phase(np.asarray(vanilla.MovInstruction(reg0=q, reg1=q1).to_matrix(), dtype=complex), qsim.SWAP):
+        if not qsim.equal_up_to_phase(M(lambda: vanilla.MovInstruction(reg0=q, reg1=q1).to_matrix(), "vanilla/mov", {"class": "MovInstruction"}), qsim.SWAP):
             add_violation(part, "published-matrix/vanilla/mov", "mov.to_matrix() is not the documented SWAP", {"class": "MovInstruction"})
         table = {GenericInstr.X: qsim.X, GenericInstr.Y: qsim.Y, GenericInstr.Z: qsim.Z, GenericInstr.H: qsim.H, GenericInstr.K: qsim.K,
                  GenericInstr.S: qsim.S, GenericInstr.T: qsim.T, GenericInstr.CNOT: qsim.CNOT, GenericInstr.CPHASE: qsim.CPHASE}
         for gi, want in table.items():
             part["evals"] += 1
             part["distinct"] += 1
-            if not qsim.equal_up_to_phase(np.asarray(QG.gate_to_matrix(gi), dtype=complex), want):
+            if not qsim.equal_up_to_phase(M(lambda: QG.gate_to_matrix(gi), f"util/{gi.name.lower()}", {"gate": gi.name}), want):
                 add_violation(part, f"published-matrix/util/{gi.name.lower()}", f"util.quantum_gates table entry {gi.name} is wrong", {"gate": gi.name})
     for n in range(lo, hi):
         for d in (list(range(0, 12)) + [16, 31, 63, 255]):
@@ -281,23 +291,23 @@ def shard_matrices(shard):
                     cls = getattr(mod, f"Rot{axis.upper()}Instruction")
                     part["evals"] += 1
                     part["distinct"] += 1 if n else 0
-                    m = cls(reg=q, imm0=Immediate(n), imm1=Immediate(d)).to_matrix()
-                    if not qsim.equal_up_to_phase(np.asarray(m, dtype=complex), qsim.rot(axis, th)):
+                    m = M(lambda: cls(reg=q, imm0=Immediate(n), imm1=Immediate(d)).to_matrix(), f"{name}/rot_{axis}", {"n": n, "d": d})
+                    if not qsim.equal_up_to_phase(m, qsim.rot(axis, th)):
                         add_violation(part, f"published-matrix/{name}/rot_{axis}", f"{name} rot_{axis}.to_matrix() is not that rotation",
                                       {"n": n, "d": d})
                 gi = getattr(GenericInstr, f"ROT_{axis.upper()}")
                 part["evals"] += 1
-                if not qsim.equal_up_to_phase(np.asarray(QG.gate_to_matrix(gi, angle=(n, d)), dtype=complex), qsim.rot(axis, th)):
+                if not qsim.equal_up_to_phase(M(lambda: QG.gate_to_matrix(gi, angle=(n, d)), f"util/rot_{axis}", {"n": n, "d": d}), qsim.rot(axis, th)):
                     add_violation(part, f"published-matrix/util/rot_{axis}", "util.quantum_gates rotation matrix is wrong", {"n": n, "d": d})
             for axis in "xy":
                 cls = getattr(nv, f"ControlledRot{axis.upper()}Instruction")
                 ins = cls(reg0=q, reg1=q1, imm0=Immediate(n), imm1=Immediate(d))
                 part["evals"] += 2
                 part["distinct"] += 2 if n else 0
-                if not qsim.equal_up_to_phase(np.asarray(ins.to_matrix(), dtype=complex), qsim.crot(axis, th)):
+                if not qsim.equal_up_to_phase(M(lambda: ins.to_matrix(), f"nv/crot_{axis}", {"n": n, "d": d}), qsim.crot(axis, th)):
                     add_violation(part, f"published-matrix/nv/crot_{axis}", f"crot_{axis}.to_matrix() is not the controlled "
                                   f"{axis.upper()} rotation", {"n": n, "d": d})
-                if not qsim.equal_up_to_phase(np.asarray(ins.to_matrix_target_only(), dtype=complex), qsim.rot(axis, th)):
+                if not qsim.equal_up_to_phase(M(lambda: ins.to_matrix_target_only(), f"nv/crot_{axis}-target-only", {"n": n, "d": d}), qsim.rot(axis, th)):
                     add_violation(part, f"published-matrix/nv/crot_{axis}-target-only", f"crot_{axis}.to_matrix_target_only() is not "
                                   f"the {axis.upper()} rotation", {"n": n, "d": d})
     count(part, "published/rot", 1)
